@@ -104,6 +104,20 @@ def gen_c11(tier, seed):
         for n in nanos:
             scs.append(sc_("dur", j, secs=s, nanos=n))
             j += 1
+    # where an intermediate of width 2^k in some unit (s, ms, us, ns, ps) would overflow:
+    # seconds around floor(2^k / 10^e) and the sub-second part that crosses 2^k exactly
+    for kbits in (31, 32, 53, 63, 64, 96, 127, 128):
+        for e in (0, 3, 6, 9, 12):
+            s0 = (2 ** kbits) // 10 ** e
+            for s_ in (s0 - 1, s0, s0 + 1):
+                if not 0 <= s_ <= U64MAX:
+                    continue
+                # smallest sub-second part (in ns) that takes the total, in units of 10^-e s, to 2^k
+                cross = -(-(2 ** kbits - s_ * 10 ** e) * 10 ** 9 // 10 ** e) if e else 0
+                for n in {0, 1, 500_000_000, 999_999_999, cross - 1, cross, cross + 1}:
+                    if 0 <= n <= 999_999_999:
+                        scs.append(sc_("dur", j, secs=s_, nanos=n))
+                        j += 1
     for _ in range(10000 if big else 600):
         scs.append(sc_("dur", j, secs=rnd_wide(rnd, 64), nanos=rnd.randint(0, 999_999_999)))
         j += 1
